@@ -21,7 +21,8 @@ TECHNIQUE = ("Coq model of the write loop and of read-accumulate-then-parse over
 RULE = ("documents: jsongen valid texts, byte-mutated texts, texts padded to 4096k-1/4096k/4096k+1 bytes (k=1..3) with the significant "
         "part at the end, nestings d-1/d/d+1 for configured depths d, literals without terminator, empty; trees: jvtext.gen_tree under "
         "8 flag sets incl. serializations beyond 4096/8192 bytes; schedules: all-1-byte, whole request, 4096-multiples, oversize, "
-        "random mixes, boundary mixes, an error at every call position for short texts and at random positions otherwise; "
+        "random mixes, boundary mixes, a failing call at every call position (incl. the end-of-file call) for short texts x errno "
+        "{EIO, EINTR, one of EAGAIN/EBADF/ENOSPC/EPIPE/EDQUOT/EFBIG/ENOMEM/untouched} and at random positions otherwise; open() failing with ENOENT/EACCES/EINTR/EMFILE/EISDIR; "
         "non-trivial = at least two data-carrying calls or an injected error reached; distinct by script line")
 TRUSTED = ["Coq 8.16.1 kernel (coqc), no axioms (Print Assumptions: closed under the global context)",
            "extraction (ExtrOcamlBasic only) + ocaml/drv_fd.ml glue (pads the schedule with whole-request entries)",
@@ -52,8 +53,8 @@ def sched_str(items):
         j = i
         while j < len(items) and items[j] == items[i]:
             j += 1
-        if items[i] == "E":
-            out += ["E"] * (j - i)
+        if isinstance(items[i], str):
+            out += [items[i]] * (j - i)
         elif j - i > 1:
             out.append("%d*%d" % (items[i], j - i))
         else:
@@ -67,8 +68,8 @@ def sched_parse(s):
         return []
     out = []
     for it in s.split(","):
-        if it == "E":
-            out.append("E")
+        if it[0] == "E":
+            out.append(it)                  # "E" (EIO) or "E:<errno name>"
         elif "*" in it:
             n, k = it.split("*")
             out += [int(n)] * int(k)
@@ -84,8 +85,8 @@ def walk_write(total, sched):
     for it in sched:
         if pos >= total:
             break                           # the writer stops calling once everything went out
-        if it == "E":
-            return ("err", pos)
+        if isinstance(it, str):
+            return ("err", pos, it)
         if it <= 0:
             return ("zero", pos)            # outside the quantifier
         pos += min(it, total - pos)
@@ -96,8 +97,8 @@ def walk_read(total, sched):
     """the same for a reader of a file of `total` bytes that asks for BUF bytes per call"""
     pos = 0
     for it in sched:
-        if it == "E":
-            return ("err", pos)
+        if isinstance(it, str):
+            return ("err", pos, it)
         n = min(it, BUF, total - pos)
         if n <= 0:
             return ("done", pos) if pos >= total else ("zero", pos)   # the end-of-file call
@@ -116,7 +117,18 @@ def rand_sizes(rng, total, big):
     return out
 
 
-def schedules(rng, total, n_extra, every_error_below=0):
+# errno carried by a failing call: the property says "a read/write error", not "an error other
+# than ...": interruptions and would-block are failures of the call like any other
+ERRNOS_R = ["EIO", "EINTR", "EAGAIN", "EBADF", "ENOMEM", "0"]
+ERRNOS_W = ["EIO", "EINTR", "EAGAIN", "ENOSPC", "EPIPE", "EDQUOT", "EFBIG", "0"]
+OPEN_ERR = ["0", "EACCES", "EINTR", "EMFILE", "EISDIR", "ENOMEM"]
+
+
+def err_item(e):
+    return "E" if e == "EIO" else "E:" + e
+
+
+def schedules(rng, total, n_extra, every_error_below=0, errnos=ERRNOS_R):
     """list of (schedule string, kind)"""
     big = total > 300
     out = [("-", "whole"), (sched_str([1] * (total + 1)), "all-1"), (sched_str([1000000]), "oversize"),
@@ -130,15 +142,21 @@ def schedules(rng, total, n_extra, every_error_below=0):
     # injected errors
     if total <= every_error_below:
         for k in range(0, total + 2):
-            out.append((sched_str([1] * k + ["E"]), "error-every"))
-        out.append((sched_str([2] * (total // 2) + ["E"]), "error-every"))
+            # every call position x the plain I/O error, the interruption, one other errno
+            for e in ("EIO", "EINTR", rng.choice(errnos[2:])):
+                out.append((sched_str([1] * k + [err_item(e)]), "error-every"))
+        out.append((sched_str([2] * (total // 2) + [err_item(rng.choice(errnos))]), "error-every"))
+        out.append((sched_str([total] + ["E:EINTR"]), "error-at-eof"))
+        out.append((sched_str([total + 1] + ["E:EAGAIN"]), "error-at-eof"))
     for _ in range(2):
         pre = rand_sizes(rng, total, big)
         cut = rng.randint(0, len(pre))
-        out.append((sched_str(pre[:cut] + ["E"] + pre[cut:]), "error-random"))
+        out.append((sched_str(pre[:cut] + [err_item(rng.choice(errnos))] + pre[cut:]), "error-random"))
     if total > BUF:
-        out.append((sched_str([BUF] * (total // BUF) + ["E"]), "error-last-chunk"))
-        out.append((sched_str([BUF] * (total // BUF + 1) + ["E"]), "error-at-eof"))
+        for e in ("EIO", "EINTR"):
+            out.append((sched_str([BUF] * (total // BUF) + [err_item(e)]), "error-last-chunk"))
+            out.append((sched_str([BUF] * (total // BUF + 1) + [err_item(e)]), "error-at-eof"))
+            out.append((sched_str([total] + [err_item(e)]), "error-at-eof"))
     return out
 
 
@@ -270,10 +288,10 @@ def gen(rng, tier):
             out.append(("fd R %s -1 %s" % (hx(t), sc), {"kind": "R-zero"}))
     # ---- files (reads)
     for (t, d, kind) in docs[::7]:
-        for ok in (0, 1):
+        for ok in ("1", rng.choice(OPEN_ERR)):
             scs = thin(rng, schedules(rng, len(t), 1), len(t), none)
             for (sc, sk) in rng.sample(scs, 3):
-                out.append(("fd F R %d %s %s" % (ok, hx(t), sc), {"kind": "FR-" + ("open" if ok else "noent") + "/" + sk}))
+                out.append(("fd F R %s %s %s" % (ok, hx(t), sc), {"kind": "FR-" + ("open" if ok == "1" else "noopen") + "/" + sk}))
     # ---- writes
     trees = gen_trees(rng, tier)
     sers = serialize_all([(t, fl) for (t, fl, _) in trees])
@@ -282,7 +300,7 @@ def gen(rng, tier):
         if ser is None:
             continue
         L = len(unhx(ser))
-        scs = schedules(rng, L, 2 if L < 300 else 1, every_error_below=(40 if kind in ("fixed", "tree") else 0))
+        scs = schedules(rng, L, 2 if L < 300 else 1, every_error_below=(40 if kind in ("fixed", "tree") else 0), errnos=ERRNOS_W)
         scs = thin(rng, scs, L, wbudget)
         if L > 60 and kind == "tree":
             scs = [s for s in scs if s[1] != "error-every"]
@@ -293,10 +311,10 @@ def gen(rng, tier):
         if ser is None:
             continue
         L = len(unhx(ser))
-        for ok in (0, 1):
-            for (sc, sk) in rng.sample(thin(rng, schedules(rng, L, 1), L, none), 3):
+        for ok in ("1", rng.choice(OPEN_ERR)):
+            for (sc, sk) in rng.sample(thin(rng, schedules(rng, L, 1, errnos=ERRNOS_W), L, none), 3):
                 which = "w" if fl == 0 and rng.random() < 0.5 else "W"
-                out.append(("fd F %s %d %s %d %s %s" % (which, ok, t, fl, sc, ser), {"kind": "FW-" + ("open" if ok else "noent") + "/" + sk}))
+                out.append(("fd F %s %s %s %d %s %s" % (which, ok, t, fl, sc, ser), {"kind": "FW-" + ("open" if ok == "1" else "noopen") + "/" + sk}))
     return out
 
 
@@ -322,7 +340,8 @@ def o_write(tree, sched, o, file, open_ok):
         if rc != -1 or dev != b"" or closes != 0:
             return ("open-failure-unreported", "open() failed: rc=%d, %d bytes written, %d close()" % (rc, len(dev), closes))
         return None
-    kind, pos = walk_write(len(ser), sched)
+    w = walk_write(len(ser), sched)
+    kind, pos = w[0], w[1]
     if kind == "zero":
         return None
     if kind == "done":
@@ -333,7 +352,7 @@ def o_write(tree, sched, o, file, open_ok):
             return ("write-not-exact", "rc=0 but the descriptor received %d bytes for a serialization of %d (%s)" % (len(dev), len(ser), how))
     else:
         if rc != -1:
-            return ("write-error-unreported", "write() failed at call after %d bytes but rc=%d (%d bytes delivered)" % (pos, rc, len(dev)))
+            return ("write-error-unreported", "write() failed (%s) at the call after %d bytes but rc=%d (%d bytes delivered)" % (w[2], pos, rc, len(dev)))
         if dev != ser[:pos]:
             return ("write-error-delivered", "after a failed write the descriptor holds %d bytes; the transfers before the failing call carried %d%s"
                     % (len(dev), pos, "" if ser.startswith(dev) else " (and it is not a prefix)"))
@@ -362,10 +381,15 @@ def o_read(doc, depth_s, sched, o, file, open_ok):
         if result != "NULL":
             return ("bad-depth-accepted", "depth %d: result %s" % (eff, result[:40]))
     else:
-        kind, pos = walk_read(len(doc), sched)
+        w = walk_read(len(doc), sched)
+        kind, pos = w[0], w[1]
         if kind == "err":
-            if result != "NULL":
-                return ("read-error-unreported", "read() failed after %d bytes but a tree was returned: %s" % (pos, result[:60]))
+            # the only alternative to reporting the failure is to have resumed an interrupted read
+            # and delivered the result of the complete data
+            resumed = w[2] == "E:EINTR" and unhx(o[6]) == doc and o[4] == "1" and result == ref
+            if result != "NULL" and not resumed:
+                return ("read-error-unreported", "read() failed (%s) after %d of %d bytes but a tree was returned without any failure report: %s"
+                        % (w[2], pos, len(doc), result[:60]))
         elif kind == "done":
             if result != ref:
                 return ("read-differs-from-memory", "descriptor read gives %s, parsing the same %d bytes from memory (depth %d) gives %s"
@@ -430,19 +454,21 @@ def shrink(ck, line, cls):
     si = {"W": 4, "R": 4}.get(t[1], 5 if t[2] == "R" else 6)
     items = sched_parse(t[si])
     if len(items) >= 2:
-        small = fw.ddmin(items, lambda sub: fails(" ".join(t[:si] + [sched_str(sub)] + t[si + 1:])), budget=25)
+        small = fw.ddmin(items, lambda sub: fails(" ".join(t[:si] + [sched_str(sub)] + t[si + 1:])), budget=10)
         t[si] = sched_str(small)
     if t[1] == "R" or (t[1] == "F" and t[2] == "R"):
         di = 2 if t[1] == "R" else 4
         doc = list(unhx(t[di]))
         if 2 <= len(doc):
-            small = fw.ddmin(doc, lambda sub: fails(" ".join(t[:di] + [hx(bytes(sub))] + t[di + 1:])), budget=40)
+            small = fw.ddmin(doc, lambda sub: fails(" ".join(t[:di] + [hx(bytes(sub))] + t[di + 1:])), budget=16)
             t[di] = hx(bytes(small))
     return " ".join(t)
 
 
 def search(rng, broken_lines):
-    return gen(rng, "quick")
+    """only reached when the model and the implementation disagree somewhere: the short cases
+    (every call position x errno, all fixed texts and trees) are where a concrete failure shows"""
+    return [c for c in gen(rng, "quick") if len(c[0]) < 1500][:2500]
 
 
 LEVEL_TEXT = ("Machine-checked (Coq, induction on transfer schedules, no axioms, no size bound): for every byte string and every schedule of "
